@@ -76,6 +76,8 @@ static int p_timestamp(const uint8_t *p, unsigned prefix, int64_t *ts, const cha
 }
 
 /* One PES packet at b (n bytes available).  Appends its lines to pf.  *used = packet size. */
+static int p_data_units(int fixed, const uint8_t *b, size_t q, size_t total, struct p_frame *pf);
+
 static int p_pes_packet(const struct h_cfg *c, const uint8_t *b, size_t n, size_t *used, int64_t want_pts, struct p_frame *pf)
 {
         if (n < 6) PFAIL("conformance: PES packet shorter than its 6 byte start", "%zu bytes", n);
@@ -116,10 +118,19 @@ static int p_pes_packet(const struct h_cfg *c, const uint8_t *b, size_t n, size_
         if (pts != (want_pts & 0x1FFFFFFFFll)) PFAIL("content: PTS in the PES header differs from the PTS passed in (mod 2^33)", "got %llx want %llx (passed %llx)", (unsigned long long) pts, (unsigned long long) (want_pts & 0x1FFFFFFFFll), (unsigned long long) want_pts);
         if (b[45] != c->did) PFAIL("content: data_identifier differs from the configured one", "got %02x want %02x", b[45], c->did);
         int fixed = c->did >= 0x10 && c->did <= 0x1F;
+        if (p_data_units(fixed, b, 46, total, pf)) return -1;
+        if (pf->npes < 8) pf->pes_size[pf->npes] = total;
+        pf->npes++;
+        *used = total;
+        return 0;
+}
 
-        /* data units, EN 301 775 table 1 */
+/* data units b[q..total), EN 301 775 table 1; `total' is the end of the PES packet (or of the caller's buffer
+ * when the low-level functions are driven directly) */
+static int p_data_units(int fixed, const uint8_t *b, size_t q, size_t total, struct p_frame *pf)
+{
         unsigned last_line = 0; int cur_field = 0;
-        q = 46;
+        {
         while (q < total) {
                 if (total - q < 2) PFAIL("conformance: lone byte at the end of the PES packet (no room for data_unit_id + data_unit_length)", "offset %zu of %zu, byte %02x", q, total, b[q]);
                 unsigned id = b[q], len = b[q + 1];
@@ -220,9 +231,7 @@ static int p_pes_packet(const struct h_cfg *c, const uint8_t *b, size_t n, size_
                 if (!p_all_ff(d + body, len - body)) PFAIL("conformance: padding after the data field not 0xFF", "offset %zu id=%02x length=%u data field %zu", q, id, len, body);
                 q += 2 + len;
         }
-        if (pf->npes < 8) pf->pes_size[pf->npes] = total;
-        pf->npes++;
-        *used = total;
+        }
         return 0;
 }
 
